@@ -134,8 +134,8 @@ CHECKS["C19"] = (
 )
 
 CHECKS["C20"] = (
-    "CrossHair-explored selectors over the modelled sources of nondeterminism: iteration order of every set created by set()/frozenset() calls in sigma.* (order-permuting set subclasses injected into the module namespaces), regex flag sets, and the draws of random.choices; a 12-item corpus is converted with the real code per (order, draw) and compared byte for byte with the baseline",
-    "PARTIAL: decides independence from the modelled set iteration orders (4 orders quick / 8 thorough) and random draws (4 draw sequences) for queries AND error texts of a 12-item corpus, and that internal identifiers never surface. Real PYTHONHASHSEED randomisation / process starts, and sets built by displays or comprehensions, are outside the solver's reach; they are only covered by a 3-seed subprocess self-check and listed by an AST scan.",
+    "CrossHair-explored selectors over the modelled sources of nondeterminism: iteration order of every set created by the sigma.* source (import hook: set/frozenset names bound to order-permuting subclasses before the module bodies run, set displays and comprehensions rewritten to set([...]) calls), regex flag sets, and the draws of random.choices; a 14-item corpus is converted with the real code per (order, draw) and compared byte for byte with the baseline",
+    "PARTIAL: decides independence from the modelled set iteration orders (4 orders quick / 8 thorough) and random draws (4 draw sequences) for queries AND error texts of a 14-item corpus, and that internal identifiers never surface. Real PYTHONHASHSEED randomisation / process starts and sets created inside C code or third-party libraries are outside the solver's reach; a 3-seed subprocess run with ordinary sets is only a self-check.",
     TB,
     "5.C20",
 )
